@@ -16,11 +16,11 @@ from ..runner import Skip
 RULE = ("cases from rng(seed, 3, 0, i): well-posed cluster graphs (1-4 clusters of r2/r3/se2/se3 poses, 2-6 (thorough: up to 12) poses each, spanning "
         "tree + loop + parallel odometry edges in either vertex order, landmarks with rotated offsets, custom unary/binary/ternary edges with "
         "numerical or AD Jacobians, dense SPD information with cross terms, shuffled vertex/edge lists, ids negative/sparse/2^62/2^64, several "
-        "fixed vertices) x fix_first_pose in {True, False}; one real iteration vs the dense reduced Gauss-Newton step. distinct = fingerprint "
+        "fixed vertices, initial poses sharing one pose object / numpy array) x fix_first_pose in {True, False}; one real iteration vs the dense reduced Gauss-Newton step. distinct = fingerprint "
         "of the spec; non-trivial = at least one free vertex moved by more than 1e-6 and cond(H_reduced) <= 1e10.")
 REQ = ["eval:gn-step-applied", "eval:fixed-vertex-zero-increment", "eval:solver-boundary-H", "eval:solver-boundary-rhs", "class:parallel_edges", "class:edge_high_index_first",
        "class:mixed_dimensions", "class:custom_unary", "class:custom_ternary", "class:custom_numeric_jacobian", "class:fix_first_pose=True", "class:fix_first_pose=False",
-       "class:several_fixed_per_cluster", "class:landmark_offset_rotated"]
+       "class:several_fixed_per_cluster", "class:landmark_offset_rotated", "class:shared_pose_storage"]
 PLAN = {
     "quick": {"cases": 1600, "soft_s": 70, "min_nontrivial": 400, "require": REQ},
     "thorough": {"cases": 60000, "soft_s": 1200, "min_nontrivial": 10000, "require": REQ},
@@ -92,7 +92,21 @@ def one_step_check(ctx, spec, labels, ffp, case, monitor_prefix=""):
         ctx.count("solver_boundary_not_crossed")
     else:
         Hs, rhs, dxs = spy.records[0]
-        if Hs is not None and Hs.shape == H.shape:
+        # locate each vertex's block through the layout the implementation itself chose (v.gradient_index); the layout is
+        # not part of the property, so an unexpected one makes this supplementary sub-check inconclusive, not violated
+        perm = np.full(n, -1)
+        layout_ok = True
+        for v, k in zip(verts, kinds):
+            gi = getattr(v, "gradient_index", None)
+            if not isinstance(gi, (int, np.integer)) or gi < 0 or gi + R.CD[k] > n:
+                layout_ok = False
+                break
+            perm[idx[id(v)]: idx[id(v)] + R.CD[k]] = np.arange(gi, gi + R.CD[k])
+        if not layout_ok or sorted(perm.tolist()) != list(range(n)):
+            ctx.count("solver_boundary_layout_unknown")
+        elif Hs is not None and Hs.shape == H.shape:
+            Hs = Hs[np.ix_(perm, perm)]
+            rhs = np.asarray(rhs)[perm]
             Hexp = np.zeros_like(H)
             Hexp[np.ix_(free, free)] = H[np.ix_(free, free)]
             fx = ~free
@@ -112,10 +126,10 @@ def run_case(ctx, i, rng):
     big = ctx.tier == "thorough" and rng.random() < 0.3
     if ffp and rng.random() < 0.5:
         k = str(rng.choice(R.KINDS))
-        spec, labels = gen.cluster_graph(rng, kinds=[k], size=(2, 12 if big else 6), fix_mode="first")
+        spec, labels = gen.cluster_graph(rng, kinds=[k], size=(2, 12 if big else 6), fix_mode="first", alias=bool(rng.random() < 0.25))
         labels.add("only_first_pose_fixed")
     else:
-        spec, labels = gen.cluster_graph(rng, size=(2, 12 if big else 6))
+        spec, labels = gen.cluster_graph(rng, size=(2, 12 if big else 6), alias=bool(rng.random() < 0.25))
     labels.add("fix_first_pose=%s" % ffp)
     case = {"graph": {k: v for k, v in spec.items() if k != "truth_by_id"}, "fix_first_pose": ffp}
     res = one_step_check(ctx, spec, labels, ffp, case)
